@@ -111,6 +111,28 @@ func c19f(c *Ctx) {
 			case *ssa.Slice:
 				t := c.term(fn, x.X)
 				if t == "$0.input" || strings.HasSuffix(t, "$0.input)") {
+					// ... cut at positions of the lexer — where a token started and where the
+					// lexer stands now — not at a computed offset (`position + 1` ends in the
+					// middle of a character of several bytes)
+					for _, b := range []ssa.Value{x.Low, x.High} {
+						if b == nil {
+							continue
+						}
+						var leaves []ssa.Value
+						phiLeaves(b, map[ssa.Value]bool{}, &leaves)
+						for _, lf := range leaves {
+							ld, isLd := lf.(*ssa.UnOp)
+							okPos := false
+							if isLd {
+								if _, lt, f, okF := fieldAddrOf(ld.X); okF && typeIs(lt, "lexer", "Lexer") && (f == "position" || f == "readPosition") {
+									okPos = true
+								}
+							}
+							if !okPos {
+								return "the input cut at " + pretty(c.term(fn, lf)) + ", which is not a position the lexer stood at"
+							}
+						}
+					}
 					return ""
 				}
 				return "slice of " + pretty(t)
@@ -181,6 +203,22 @@ func c19f(c *Ctx) {
 				if okR && !isConst && loopHeaders(fn)[ci.Block()] != nil {
 					w, skip := iterationSkips(fn, ci.(ssa.Instruction))
 					c.Check(!skip, fmt.Sprintf("builder/%s@%d/every-character", fn.Name(), c.T(fn).callOrd[ci]), c.W.Pos(ci.Pos()), "every character the loop reads is written", fn.Name()+" can consume a character without writing it (an iteration can reach "+c.nearPos(w)+" without the write): the literal would not be what the source spells")
+				}
+			}
+		}
+		// what a reader of the lexer hands back as text is itself source text (its result is
+		// accepted as such where it is stored into a Literal)
+		if res := fn.Signature.Results(); res.Len() > 0 && fn.Signature.Recv() != nil {
+			for ri := 0; ri < res.Len(); ri++ {
+				if b, ok := res.At(ri).Type().Underlying().(*types.Basic); !ok || b.Kind() != types.String {
+					continue
+				}
+				for k, r := range returnsOf(fn) {
+					if ri >= len(r.Results) {
+						continue
+					}
+					why := allowed(r.Results[ri], 0)
+					c.Check(why == "", fmt.Sprintf("returned-text/%s#%d.%d", fn.Name(), k, ri), c.W.Pos(r.Pos()), "the text a lexer function returns is source text", fn.Name()+" returns text that is not source text: "+why)
 				}
 			}
 		}
